@@ -23,9 +23,11 @@
 (*                         call and insertion into `senders` run without   *)
 (*                         mutual exclusion; FALSE: under the write lock   *)
 (*                         of `senders`, after re-checking the entry.      *)
-(*  Defect_SplitDrop       `TopicDropGuard::drop`: fetch_sub and the       *)
-(*                         sending of Unsubscribe are two steps; FALSE:    *)
-(*                         one atomic step (w.r.t. the liveness check).    *)
+(*  Defect_SplitDrop       `TopicDropGuard::drop`: the counter is not      *)
+(*                         protected between the decrement to zero and    *)
+(*                         the sending of Unsubscribe; FALSE: the counter  *)
+(*                         mutex is held from the decrement until the     *)
+(*                         message is in the inbox.                       *)
 (*                                                                         *)
 (* Granularity: one action per stretch of code between two points at which *)
 (* another task/thread can be scheduled *and observe a difference*.  Lock  *)
@@ -57,7 +59,9 @@ VARIABLES
     hst,       \* hst[h]: "none" | "live" | "fetched" (fetch_sub done, Unsubscribe not yet sent) | "dropped"
     hctr,      \* hctr[h]: id of the counter the guard of handle h (or of the running call) points to
     hsess,     \* hsess[h]: session (id of the Subscribe) whose channels the handle holds
-    ctr,       \* ctr[c]: value of the AtomicUsize created by the slow path of process c
+    ctr,       \* ctr[c]: value of the counter created by the slow path of process c
+    cmutex,    \* cmutex[c]: the handle whose drop holds the mutex of counter c across the
+               \*            schedule point before send_message(Unsubscribe), or "none"
     senders,   \* entry of the `senders` map for the topic: NoEntry or [ctr |-> c, sess |-> x]
     readers,   \* processes holding the read lock of `senders` across a schedule point
     writer,    \* process holding the write lock of `senders` across a schedule point, or "none"
@@ -65,9 +69,11 @@ VARIABLES
     session,   \* manager state: sessions_by_topic[topic] (id of the Subscribe that made it) or "none"
     orphans    \* sessions replaced in sessions_by_topic without having been stopped
 
-vars == <<pc, hst, hctr, hsess, ctr, senders, readers, writer, mailbox, session, orphans>>
+vars == <<pc, hst, hctr, hsess, ctr, cmutex, senders, readers, writer, mailbox, session, orphans>>
 
 PcValues == {"idle",       \* stream() not called yet
+             "mutexR",     \* fast path: senders read-locked, blocked on the mutex of the entry's counter
+             "mutexW",     \* slow path: senders write-locked, blocked on the mutex of the entry's counter
              "atA",        \* api.rs:161 between has_subscriptions() and guard.clone(), read lock held
              "atW",        \* (repaired slow path) before senders.write()
              "atB",        \* api.rs:180 new guard created
@@ -82,6 +88,7 @@ TypeOK ==
     /\ hctr \in [HandleId -> Proc \cup {None}]
     /\ hsess \in [HandleId -> Proc \cup {None}]
     /\ ctr \in [Proc -> Nat]
+    /\ cmutex \in [Proc -> HandleId \cup {None}]
     /\ senders = NoEntry \/ senders \in [ctr : Proc, sess : Proc]
     /\ readers \subseteq Proc
     /\ writer \in Proc \cup {None}
@@ -94,6 +101,7 @@ Init ==
     /\ hctr = [h \in HandleId |-> None]
     /\ hsess = [h \in HandleId |-> None]
     /\ ctr = [c \in Proc |-> 0]
+    /\ cmutex = [c \in Proc |-> None]
     /\ senders = NoEntry
     /\ readers = {} /\ writer = None
     /\ mailbox = <<>>
@@ -101,6 +109,9 @@ Init ==
 
 \* TopicDropGuard::has_subscriptions (api.rs:454) on the entry of the senders map
 EntryLive == senders # NoEntry /\ ctr[senders.ctr] >= 1
+
+\* try_clone() on the entry has to wait: a drop holds the mutex of its counter
+EntryLocked == senders # NoEntry /\ cmutex[senders.ctr] # None
 
 ---------------------------------------------------------------------------
 (* stream(): fast path, api.rs:157-170                                     *)
@@ -110,67 +121,98 @@ EntryLive == senders # NoEntry /\ ctr[senders.ctr] >= 1
 \*  - entry live, repaired: atomic increment-if-non-zero, handle returned
 \*  - otherwise: read lock released; (as found) new guard created, api.rs:177;
 \*               (repaired) go for the write lock
+EvalRead(s) ==
+    IF EntryLive
+    THEN IF Defect_CheckThenClone
+         THEN /\ pc' = [pc EXCEPT ![s] = "atA"]
+              /\ readers' = readers \cup {s}
+              /\ hctr' = [hctr EXCEPT ![s] = senders.ctr]
+              /\ hsess' = [hsess EXCEPT ![s] = senders.sess]
+              /\ UNCHANGED <<ctr, hst>>
+         ELSE /\ pc' = [pc EXCEPT ![s] = "returned"]
+              /\ ctr' = [ctr EXCEPT ![senders.ctr] = @ + 1]
+              /\ hctr' = [hctr EXCEPT ![s] = senders.ctr]
+              /\ hsess' = [hsess EXCEPT ![s] = senders.sess]
+              /\ hst' = [hst EXCEPT ![s] = "live"]
+              /\ readers' = readers \ {s}
+    ELSE IF Defect_UnlockedJoin
+         THEN /\ pc' = [pc EXCEPT ![s] = "atB"]
+              /\ ctr' = [ctr EXCEPT ![s] = 1]            \* TopicDropGuard::new, INITIAL_COUNTER
+              /\ hctr' = [hctr EXCEPT ![s] = s]
+              /\ readers' = readers \ {s}
+              /\ UNCHANGED <<hsess, hst>>
+         ELSE /\ pc' = [pc EXCEPT ![s] = "atW"]
+              /\ readers' = readers \ {s}
+              /\ UNCHANGED <<ctr, hctr, hsess, hst>>
+
 ReadSenders(s) ==
     /\ pc[s] = "idle"
     /\ writer = None
-    /\ IF EntryLive
-       THEN IF Defect_CheckThenClone
-            THEN /\ pc' = [pc EXCEPT ![s] = "atA"]
-                 /\ readers' = readers \cup {s}
-                 /\ hctr' = [hctr EXCEPT ![s] = senders.ctr]
-                 /\ hsess' = [hsess EXCEPT ![s] = senders.sess]
-                 /\ UNCHANGED <<ctr, hst>>
-            ELSE /\ pc' = [pc EXCEPT ![s] = "returned"]
-                 /\ ctr' = [ctr EXCEPT ![senders.ctr] = @ + 1]
-                 /\ hctr' = [hctr EXCEPT ![s] = senders.ctr]
-                 /\ hsess' = [hsess EXCEPT ![s] = senders.sess]
-                 /\ hst' = [hst EXCEPT ![s] = "live"]
-                 /\ UNCHANGED readers
-       ELSE IF Defect_UnlockedJoin
-            THEN /\ pc' = [pc EXCEPT ![s] = "atB"]
-                 /\ ctr' = [ctr EXCEPT ![s] = 1]            \* TopicDropGuard::new, INITIAL_COUNTER
-                 /\ hctr' = [hctr EXCEPT ![s] = s]
-                 /\ UNCHANGED <<readers, hsess, hst>>
-            ELSE /\ pc' = [pc EXCEPT ![s] = "atW"]
-                 /\ UNCHANGED <<readers, ctr, hctr, hsess, hst>>
-    /\ UNCHANGED <<senders, writer, mailbox, session, orphans>>
+    /\ IF EntryLocked
+       THEN \* the call sits in try_clone() (std mutex) with the read lock of senders held
+            /\ pc' = [pc EXCEPT ![s] = "mutexR"]
+            /\ readers' = readers \cup {s}
+            /\ UNCHANGED <<ctr, hctr, hsess, hst>>
+       ELSE EvalRead(s)
+    /\ UNCHANGED <<cmutex, senders, writer, mailbox, session, orphans>>
+
+\* the drop that held the counter mutex is through: try_clone() goes on by itself
+ResumeRead(s) ==
+    /\ pc[s] = "mutexR"
+    /\ ~EntryLocked
+    /\ EvalRead(s)
+    /\ UNCHANGED <<cmutex, senders, writer, mailbox, session, orphans>>
 
 \* `guard.clone()`: unconditional fetch_add (api.rs:472-476), read lock released on return
 CloneGuard(s) ==
     /\ pc[s] = "atA"
+    /\ cmutex[hctr[s]] = None
     /\ ctr' = [ctr EXCEPT ![hctr[s]] = @ + 1]
     /\ readers' = readers \ {s}
     /\ pc' = [pc EXCEPT ![s] = "returned"]
     /\ hst' = [hst EXCEPT ![s] = "live"]
-    /\ UNCHANGED <<hctr, hsess, senders, writer, mailbox, session, orphans>>
+    /\ UNCHANGED <<hctr, hsess, cmutex, senders, writer, mailbox, session, orphans>>
 
 ---------------------------------------------------------------------------
 (* stream(): slow path, api.rs:172-228                                     *)
 
 \* repaired code only: `self.senders.write().await`, entry checked again under the lock
+EvalWrite(s) ==
+    IF EntryLive
+    THEN /\ pc' = [pc EXCEPT ![s] = "returned"]
+         /\ ctr' = [ctr EXCEPT ![senders.ctr] = @ + 1]
+         /\ hctr' = [hctr EXCEPT ![s] = senders.ctr]
+         /\ hsess' = [hsess EXCEPT ![s] = senders.sess]
+         /\ hst' = [hst EXCEPT ![s] = "live"]
+         /\ writer' = None
+    ELSE /\ pc' = [pc EXCEPT ![s] = "atB"]
+         /\ ctr' = [ctr EXCEPT ![s] = 1]
+         /\ hctr' = [hctr EXCEPT ![s] = s]
+         /\ writer' = s
+         /\ UNCHANGED <<hsess, hst>>
+
 AcquireWrite(s) ==
     /\ pc[s] = "atW"
     /\ writer = None /\ readers = {}
-    /\ IF EntryLive
-       THEN /\ pc' = [pc EXCEPT ![s] = "returned"]
-            /\ ctr' = [ctr EXCEPT ![senders.ctr] = @ + 1]
-            /\ hctr' = [hctr EXCEPT ![s] = senders.ctr]
-            /\ hsess' = [hsess EXCEPT ![s] = senders.sess]
-            /\ hst' = [hst EXCEPT ![s] = "live"]
-            /\ UNCHANGED writer
-       ELSE /\ pc' = [pc EXCEPT ![s] = "atB"]
-            /\ ctr' = [ctr EXCEPT ![s] = 1]
-            /\ hctr' = [hctr EXCEPT ![s] = s]
+    /\ IF EntryLocked
+       THEN /\ pc' = [pc EXCEPT ![s] = "mutexW"]
             /\ writer' = s
-            /\ UNCHANGED <<hsess, hst>>
-    /\ UNCHANGED <<senders, readers, mailbox, session, orphans>>
+            /\ UNCHANGED <<ctr, hctr, hsess, hst>>
+       ELSE EvalWrite(s)
+    /\ UNCHANGED <<cmutex, senders, readers, mailbox, session, orphans>>
+
+ResumeWrite(s) ==
+    /\ pc[s] = "mutexW"
+    /\ ~EntryLocked
+    /\ EvalWrite(s)
+    /\ UNCHANGED <<cmutex, senders, readers, mailbox, session, orphans>>
 
 \* `call!(actor_ref, ToGossipManager::Subscribe, topic, node_ids)`: message enqueued
 CallSubscribe(s) ==
     /\ pc[s] = "atB"
     /\ mailbox' = Append(mailbox, [t |-> "Subscribe", by |-> s])
     /\ pc' = [pc EXCEPT ![s] = "waitReply"]
-    /\ UNCHANGED <<hst, hctr, hsess, ctr, senders, readers, writer, session, orphans>>
+    /\ UNCHANGED <<hst, hctr, hsess, ctr, cmutex, senders, readers, writer, session, orphans>>
 
 \* `senders.write().await; senders.insert(..)`; the handle is returned
 InsertSenders(s) ==
@@ -181,7 +223,7 @@ InsertSenders(s) ==
     /\ writer' = None
     /\ pc' = [pc EXCEPT ![s] = "returned"]
     /\ hst' = [hst EXCEPT ![s] = "live"]
-    /\ UNCHANGED <<hctr, hsess, ctr, readers, mailbox, session, orphans>>
+    /\ UNCHANGED <<hctr, hsess, ctr, cmutex, readers, mailbox, session, orphans>>
 
 ---------------------------------------------------------------------------
 (* gossip manager actor, manager.rs:186-288                                *)
@@ -201,7 +243,7 @@ ActorStep ==
             /\ session' = None
             /\ UNCHANGED <<orphans, pc, hsess>>
     /\ mailbox' = Tail(mailbox)
-    /\ UNCHANGED <<hst, hctr, ctr, senders, readers, writer>>
+    /\ UNCHANGED <<hst, hctr, ctr, cmutex, senders, readers, writer>>
 
 ---------------------------------------------------------------------------
 (* handles: clone and drop, api.rs:472-531                                 *)
@@ -209,6 +251,7 @@ ActorStep ==
 \* GossipHandle::clone / GossipHandle::subscribe on a live handle: fetch_add
 CloneHandle(h, k) ==
     /\ hst[h] = "live"
+    /\ cmutex[hctr[h]] = None
     /\ \E i \in 1..Len(CloneSeq) :
           /\ k = CloneSeq[i] /\ hst[k] = "none"
           /\ \A j \in 1..(i - 1) : hst[CloneSeq[j]] # "none"    \* clone names are used in order
@@ -216,30 +259,31 @@ CloneHandle(h, k) ==
     /\ hst' = [hst EXCEPT ![k] = "live"]
     /\ hctr' = [hctr EXCEPT ![k] = hctr[h]]
     /\ hsess' = [hsess EXCEPT ![k] = hsess[h]]
-    /\ UNCHANGED <<pc, senders, readers, writer, mailbox, session, orphans>>
+    /\ UNCHANGED <<pc, cmutex, senders, readers, writer, mailbox, session, orphans>>
 
 Unsub(h) == [t |-> "Unsubscribe", by |-> h]
 
-\* TopicDropGuard::drop: fetch_sub; Unsubscribe iff the previous value was INITIAL_COUNTER
+\* TopicDropGuard::drop, first half: lock the counter, decrement. If the counter arrived at
+\* zero the drop goes on to the schedule point before send_message(Unsubscribe) - with the
+\* counter mutex held (repaired code) or not (Defect_SplitDrop); otherwise it is through.
 FetchSub(h) ==
     /\ hst[h] = "live"
+    /\ cmutex[hctr[h]] = None
     /\ LET prev == ctr[hctr[h]] IN
        /\ ctr' = [ctr EXCEPT ![hctr[h]] = prev - 1]
        /\ IF prev = 1
-          THEN IF Defect_SplitDrop
-               THEN /\ hst' = [hst EXCEPT ![h] = "fetched"]
-                    /\ UNCHANGED mailbox
-               ELSE /\ hst' = [hst EXCEPT ![h] = "dropped"]
-                    /\ mailbox' = Append(mailbox, Unsub(h))
+          THEN /\ hst' = [hst EXCEPT ![h] = "fetched"]
+               /\ cmutex' = IF Defect_SplitDrop THEN cmutex ELSE [cmutex EXCEPT ![hctr[h]] = h]
           ELSE /\ hst' = [hst EXCEPT ![h] = "dropped"]
-               /\ UNCHANGED mailbox
-    /\ UNCHANGED <<pc, hctr, hsess, senders, readers, writer, session, orphans>>
+               /\ UNCHANGED cmutex
+    /\ UNCHANGED <<pc, hctr, hsess, senders, readers, writer, mailbox, session, orphans>>
 
-\* second half of drop (only with Defect_SplitDrop): actor_ref.send_message(Unsubscribe)
+\* second half: actor_ref.send_message(Unsubscribe), then the counter mutex is released
 SendUnsub(h) ==
     /\ hst[h] = "fetched"
     /\ mailbox' = Append(mailbox, Unsub(h))
     /\ hst' = [hst EXCEPT ![h] = "dropped"]
+    /\ cmutex' = [c \in Proc |-> IF cmutex[c] = h THEN None ELSE cmutex[c]]
     /\ UNCHANGED <<pc, hctr, hsess, ctr, senders, readers, writer, session, orphans>>
 
 ---------------------------------------------------------------------------
@@ -258,11 +302,12 @@ CancelStream(s) ==
        THEN /\ ctr' = [ctr EXCEPT ![s] = 0]
             /\ mailbox' = Append(mailbox, [t |-> "Unsubscribe", by |-> s])
        ELSE UNCHANGED <<ctr, mailbox>>
-    /\ UNCHANGED <<hst, hctr, hsess, senders, session, orphans>>
+    /\ UNCHANGED <<hst, hctr, hsess, cmutex, senders, session, orphans>>
 
 ---------------------------------------------------------------------------
 Next ==
-    \/ \E s \in Proc : ReadSenders(s) \/ CloneGuard(s) \/ AcquireWrite(s)
+    \/ \E s \in Proc : ReadSenders(s) \/ ResumeRead(s) \/ CloneGuard(s) \/ AcquireWrite(s)
+                       \/ ResumeWrite(s)
                        \/ CallSubscribe(s) \/ InsertSenders(s) \/ CancelStream(s)
     \/ ActorStep
     \/ \E h \in HandleId : FetchSub(h) \/ SendUnsub(h)
